@@ -10,7 +10,7 @@ namespace PV.Time
     this is the algorithm numpy's datetime64 uses for its day count) -/
 def daysFromCivil (y : Int) (m d : Nat) : Int :=
   let y' : Int := if m ≤ 2 then y - 1 else y
-  let era : Int := (if y' ≥ 0 then y' else y' - 399) / 400
+  let era : Int := Int.tdiv (if y' ≥ 0 then y' else y' - 399) 400   -- C division truncates (numpy / Hinnant)
   let yoe : Int := y' - era * 400
   let mp : Int := ((m : Int) + 9) % 12
   let doy : Int := (153 * mp + 2) / 5 + (d : Int) - 1
